@@ -36,8 +36,29 @@ class Py(enum.Enum):
     C = (3,)
 
 
+class Rec:
+    """An unhashable record (defines __eq__, so no __hash__); every instance prints alike in messages."""
+
+    def __init__(self, a, b):
+        self.a, self.b = a, b
+
+    def __eq__(self, other):
+        return isinstance(other, Rec) and (self.a, self.b) == (other.a, other.b)
+
+    __hash__ = None
+
+
+LONG_A = list(range(14))
+LONG_B = list(range(6)) + [99] + list(range(7, 14))          # differs from LONG_A only in the middle
+DEEP_A = {'a': {'b': {'c': {'d': 1}}}}
+DEEP_B = {'a': {'b': {'c': {'d': 2}}}}                        # differs only below the depth at which messages cut off
+
+
 def make_enums():
     out = []
+    # unhashable internal values that look alike when printed (long lists, deep containers, records): result coercion has to
+    # compare them by value, whatever it printed or remembered about an earlier look-alike
+    out.append(('lookalike', GraphQLEnumType('ELook', {'LA': LONG_A, 'DA': DEEP_A, 'R1': Rec(1, [1]), 'R2': Rec(2, [2]), 'LB': LONG_B})))
     out.append(('plain', GraphQLEnumType('EPlain', {'RED': 0, 'GREEN': 1, 'BLUE': 'b', 'ONE': 1})))
     out.append(('valueless', GraphQLEnumType('ENone', {'X': None, 'Y': None, 'Z': 'X'})))
     out.append(('unhashable', GraphQLEnumType('EUnh', {'L': [1], 'D': {'a': 1}, 'U': values.Unhashable(), 'S': 's'})))
@@ -48,7 +69,8 @@ def make_enums():
     return out
 
 
-ENUM_EXTRA = [0, 1, 'b', 'RED', 'X', 'Z', None, [1], {'a': 1}, values.Unhashable(), Py.A, Py.B, Py.C, 'A', 'two', (3,), 1.0, True, False, 0.0, '', float('nan'),
+ENUM_EXTRA = [list(LONG_A), dict(DEEP_A), Rec(1, [1]), Rec(2, [2]), list(LONG_B), DEEP_B, Rec(3, [3]), list(range(5)) + [7] * 4 + list(range(9, 14)),
+              Rec(1, [1]), list(LONG_A), DEEP_B, 0, 1, 'b', 'RED', 'X', 'Z', None, [1], {'a': 1}, values.Unhashable(), Py.A, Py.B, Py.C, 'A', 'two', (3,), 1.0, True, False, 0.0, '', float('nan'),
               'NAN', -0.0, 2, 'GREEN', 's']
 
 _state = {}
